@@ -7,6 +7,7 @@ VARIABLE l
 
 Verdict(e) ==
     CASE e.op \in {"iban.random", "bban.random"} -> RandomOutcome(e)
+      [] e.op = "repro" -> ReproOutcome(e)
       [] OTHER -> "unknown-op"
 
 Init == l = 1
